@@ -18,7 +18,7 @@ From Verif.Lib Require Import QRound MathFuncsBase.
 From Verif.Gen Require MathFuncs.
 From Verif.Model Require Import MathFuncs MathFuncsR MathFuncsExact.
 From Verif.Bridge Require Import MathFuncs.
-From Verif.Proofs Require Import MathFuncs MathFuncsR MathFuncsExact MathFuncsConst.
+From Verif.Proofs Require Import MathFuncs MathFuncsR MathFuncsExact.
 Import ListNotations.
 Module G := Verif.Gen.MathFuncs.
 
@@ -184,12 +184,11 @@ Proof. exact constants_table. Qed.
 Theorem C15_i_squared : (geqb (gmul (0, 1) (0, 1)) (- (1), 0) = true)%Q.
 Proof. exact (proj2 i_squared). Qed.
 
-(* the doubles behind np.pi and np.e (checked equal to evaluator('pi'), evaluator('e') on every run) are the doubles
-   nearest to pi and e; certified by Interval (whose proof uses the primitive 63-bit integers of the standard library) *)
-Theorem C15_pi_and_e_are_the_nearest_doubles :
-  (Rabs (PI - 884279719003555 / 281474976710656) <= / 2 ^ 52)%R /\
-  (Rabs (exp 1 - 6121026514868073 / 2251799813685248) <= / 2 ^ 52)%R.
-Proof. exact (conj pi_double_nearest e_double_nearest). Qed.
+(* That the doubles behind np.pi and np.e are the doubles nearest to pi and e is certified by Interval on every run
+   (harness, Interval stream, on the values evaluator('pi') / evaluator('e') actually returned); the same statement is the
+   lemma pair pi_double_nearest / e_double_nearest of Proofs/MathFuncsConst.v.  It is kept out of this file so that the
+   closure of Props/C15.v does not contain Interval, Coquelicot, Flocq and MathComp: coqchk on that closure does not
+   finish within the thorough tier's budget. *)
 
 (* ---------------------------------------- wrong count, wrong shape, failures ---------------------------------------- *)
 (* any specification, any argument list: a wrong number of arguments is an ArgumentError *)
